@@ -5,9 +5,9 @@ package main
 // projection each option profile promises; the printed text must parse and compile alone.
 
 import (
-	"math/rand/v2"
 	"encoding/json"
 	"fmt"
+	"math/rand/v2"
 	"os"
 	"os/exec"
 	"path/filepath"
